@@ -324,13 +324,13 @@ def _shard_entry(args):
         return ('err', traceback.format_exc())
 
 
-def parallel(fn, jobs, procs=None, stats=None):
+def parallel(fn, jobs, procs=None, stats=None, fork=False):
     """Run fn(job) -> Stats for every job in forked workers and merge.  fn must be a module-level
     function (or otherwise fork-inheritable; we use fork so closures work too)."""
     jobs = list(jobs)
     out = stats if stats is not None else Stats()
     procs = min(procs or NPROC, max(1, len(jobs)))
-    if procs <= 1 or os.environ.get('VP_SERIAL'):
+    if (procs <= 1 and not fork) or os.environ.get('VP_SERIAL') or multiprocessing.current_process().daemon:
         for j in jobs:
             kind, val = _shard_entry((fn, j))
             if kind == 'err':
